@@ -44,3 +44,12 @@ Section Keyed.
 End Keyed.
 
 Definition sum_nat (l : list nat) : nat := fold_right Nat.add O l.
+
+(* tables keyed by a number (insertion ordered, first entry wins) *)
+Section Tables.
+  Context {V : Type}.
+  Definition tget (d : V) (t : list (N * V)) (k : N) : V := match kfind fst k t with Some p => snd p | None => d end.
+  Definition tfind (t : list (N * V)) (k : N) : option V := option_map snd (kfind fst k t).
+  Definition tset (t : list (N * V)) (k : N) (v : V) : list (N * V) := kset fst (k, v) t.
+  Definition tdel (t : list (N * V)) (k : N) : list (N * V) := kdel fst k t.
+End Tables.
